@@ -505,7 +505,7 @@ def main():
         obs = []
         try:
             if u['engine'] == 'kani':
-                hs = [h for h in u['harnesses'] if tier_ok(h) and (not args.only or args.only in h['h'])]
+                hs = [h for h in u['harnesses'] if tier_ok(h) and (not args.only or any(x in h['h'] for x in args.only.split(',')))]
                 if not hs:
                     return info, obs, None
                 build_scratch(uroot, u['sidecars'], info)
